@@ -167,12 +167,26 @@ class AsyncHTTP2Connection(AsyncConnectionInterface):
                 },
             )
         except BaseException as exc:  # noqa: PIE786
+            # If the server has reset the stream then h2 refuses whatever we
+            # still try to send on it. That is the remote end's doing.
+            stream_reset = next(
+                (
+                    event
+                    for event in self._events.get(stream_id, [])
+                    if isinstance(event, h2.events.StreamReset)
+                ),
+                None,
+            )
+
             with AsyncShieldCancellation():
                 kwargs = {"stream_id": stream_id}
                 async with Trace("response_closed", logger, request, kwargs):
                     await self._response_closed(stream_id=stream_id)
 
             if isinstance(exc, h2.exceptions.ProtocolError):
+                if stream_reset is not None:
+                    raise RemoteProtocolError(stream_reset)
+
                 # One case where h2 can raise a protocol error is when a
                 # closed frame has been seen by the state machine.
                 #
